@@ -83,6 +83,9 @@ func (sfv *seqFunVars) setKeysItem(f slip.Object, s *slip.Scope, args slip.List,
 	if pos < len(args) {
 		slip.ErrorPanic(s, depth, "extra arguments that are not keyword and value pairs")
 	}
+	if sfv.start < 0 || (0 <= sfv.end && sfv.end < sfv.start) {
+		slip.ErrorPanic(s, depth, "start and end of %d, %d are not valid bounding indices", sfv.start, sfv.end)
+	}
 }
 
 func (sfv *seqFunVars) setKeysIf(f slip.Object, s *slip.Scope, args slip.List, depth int) {
@@ -138,5 +141,8 @@ func (sfv *seqFunVars) setKeysIf(f slip.Object, s *slip.Scope, args slip.List, d
 	}
 	if pos < len(args) {
 		slip.ErrorPanic(s, depth, "extra arguments that are not keyword and value pairs")
+	}
+	if sfv.start < 0 || (0 <= sfv.end && sfv.end < sfv.start) {
+		slip.ErrorPanic(s, depth, "start and end of %d, %d are not valid bounding indices", sfv.start, sfv.end)
 	}
 }
